@@ -15,5 +15,29 @@ fx=Facts(extract.extract('/repo','cfb'))
 k=json.load(open('/verif/rules/known_functions.json'))
 k['functions']=sorted((set(k['functions'])|set(fx.fns))-set(k.get('inline',[])))
 json.dump(k,open('/verif/rules/known_functions.json','w'),indent=0)
-print('reference', h[:16], len(k['functions']))
+# sink keys covered by each audited entry on this tree
+sys.path.insert(0,'/verif/engine/cfbsa')
+from core import Ctx, load_tables
+import rules_sink
+tabs=load_tables(); tabs.pop('sink_keys',None)
+ctx=Ctx(extract.extract('/repo','cfb'), tabs)
+cl=rules_sink.Classifier(ctx)
+sk={}
+for p_,f in ctx.fx.fns.items():
+    for s_ in rules_sink.enumerate_sinks(f):
+        desc,atoms,auto=cl.classify(f,s_)
+        if auto: continue
+        e=cl.audited(f,s_['kind'],desc,atoms)
+        if e is None or e['class'].startswith('known-finding'): continue
+        sk.setdefault(p_,[])
+        key='%s|%s'%(s_['kind'],rules_sink.shape_of(desc))
+        if key not in sk[p_]: sk[p_].append(key)
+old={}
+try: old=json.load(open('/verif/rules/sink_keys.json')).get('functions',{})
+except Exception: pass
+for p_,ks in old.items():
+    for k_ in ks:
+        if k_ not in sk.setdefault(p_,[]): sk[p_].append(k_)
+json.dump({'_reason':'for every function with audited sink entries: the sinks (kind | operator skeleton) those entries were written for, on the reference trees; a site outside this set is not covered by the old audit','functions':sk},open('/verif/rules/sink_keys.json','w'),indent=0)
+print('reference', h[:16], len(k['functions']), 'audited sink keys', sum(len(v) for v in sk.values()))
 PY
